@@ -113,7 +113,8 @@ def trait_model(ex, ci, trb, st, meth, args, fn, dest_ty):
     if trb == 'BufMut': return models_coll.inherent(ex, ci, 'BytesMut', meth, args, fn, dest_ty)
     if trb in ('Add', 'Sub', 'AddAssign', 'SubAssign'): return models_misc.arith_trait(ex, trb, st, args)
     if trb in ('Future', 'IntoFuture', 'Instrument', 'Callsite', 'Rng'):
-        return models_misc.inherent(ex, ci, trb, meth, args, fn, dest_ty)
+        r = models_misc.inherent(ex, ci, trb, meth, args, fn, dest_ty)
+        if r is not NotImplemented: return r
     if trb == 'Extend' and meth == 'extend':
         v = ex.deref(a0)
         for x in drain(ex, into_iter(ex, args[1])):
